@@ -17,6 +17,24 @@ OUT = os.environ.get('VERIF_OUT') or ROOT
 PY = '/venv/bin/python'
 
 
+_pipe_closed = [False]
+
+
+def print(*a, **k):          # noqa: A001 -- a reader that closes the pipe early (| head) must not change the verdict
+    import builtins
+    if _pipe_closed[0]:
+        return
+    try:
+        builtins.print(*a, **k)
+        sys.stdout.flush()
+    except BrokenPipeError:
+        _pipe_closed[0] = True
+        try:
+            sys.stdout = open(os.devnull, 'w')
+        except OSError:
+            pass
+
+
 def child_env():
     env = dict(os.environ)
     env.update(PYTHONDONTWRITEBYTECODE='1', PYTHONHASHSEED='0', MPLBACKEND='Agg',
